@@ -14,6 +14,8 @@ CLAIMED = {
          "MIR-driver rules: construction-site enumeration, guard dominance with interval extraction, constant folding, who-may-write"),
  "C20": ("other", "Determinism decided as absence of every way two runs could differ: no hash-order iteration and no process-varying input anywhere in the generator (who-may-call over all bodies, each with a positive control that must fire), every file-system write rooted through the call graph in generate_files' output directory, CLI fields wired to the Config setter of the same meaning, ordered containers for emitted order. Determinism of third-party formatters is trusted.", "4/C20",
          "MIR-driver rules: effect who-may-call with positive controls, interprocedural path-root dataflow, CLI-to-Config dataflow table"),
+ "C13": ("other", "Sibling-table agreement over the 19 variants of the `any` carrier: serializer->variant, variant->re-serialize, visitor->variant, variant->replay, compound end(), each extracted from MIR and compared with one canonical table; trait-surface completeness (the i128/u128 class); coercion constants and per-type key parsing rows; Option handling. The inverse law for all values is not decided.", "4/C13",
+         "MIR-driver rules: decision tables from discriminant switches and aggregates, trait-surface completeness, sibling agreement"),
 }
 NA = {
  "C11": "Content negotiation quantifies over parsed header lists and numeric q-values; its truth lives in comparator outcomes, not in the shape of the code. The structural clauses in reach are decided under C06/C04; a mirror of this implementation's iterator chain would be a brittle proxy (DESIGN.md section 4/C11).",
@@ -46,7 +48,7 @@ def main():
         "version": 1,
         "setup_cmd": "./setup.sh",
         "hooks": {"guard": "palantir_conjure_rust_verif", "enable": "none needed: the analysis reads unmodified sources (guard reserved, unused)",
-                  "baseline_off_cmd": "cd /repo && cargo test --workspace --no-fail-fast --offline", "source_commits": [], "add_only": True},
+                  "baseline_off_cmd": "cd /repo && cargo test --workspace --no-fail-fast --offline --lib --bins --tests", "source_commits": [], "add_only": True},
         "engines": [
             {"name": "mirfacts", "path": "/verif/mirfacts", "serves_properties": sorted(CLAIMED), "kind_free_text": "rustc_private driver (nightly) dumping analysis-phase MIR, impl/ADT tables, evaluated constants as JSON facts, injected via RUSTC_WORKSPACE_WRAPPER under cargo +nightly check"},
             {"name": "rules", "path": "/verif/vf", "serves_properties": sorted(CLAIMED), "kind_free_text": "Python rule library: CFG, dominators, control dependence, copy-chain dataflow, decision tables, typestate; one module per property"},
